@@ -124,7 +124,28 @@ async def _situation(loop, sit, backend, k, repeat_name=None, pipelined=False, f
         verb = cmd.split(" ")[0]
         empty = name == "stor-empty"
         pipelined_codes = None
-        if pipelined:
+        if pipelined == "reset-data":
+            # the peer closes its end of the data connection with bytes unread (a reset reaches the server) while the
+            # worker is inside a slow backend call - and THAT call then fails: still a backend failure, still 451
+            m0 = len(a.replies)
+            spy.delay = 0.3
+            a.send_raw(cmd.encode() + b"\r\n")
+            waited = 0.0
+            while waited < 4.0 and not any(c == "150" for c, _ in a.replies[m0:]) and not a.eof:
+                await asyncio.sleep(0.05)
+                waited += 0.05
+            await asyncio.sleep(0.05)
+            if a.data is not None:
+                a.data[1].transport.vanish()
+                a.data = None
+            waited = 0.0
+            while waited < 8.0 and not any(not c.startswith("1") for c, _ in a.replies[m0:]) and not a.eof:
+                await asyncio.sleep(0.25)
+                waited += 0.25
+                await loop.settle()
+            spy.delay = 0.0
+            codes, crashed, out, listing = [int(c) for c, _ in a.replies[m0:] if c.isdigit()], False, b"", None
+        elif pipelined:
             # the faulting command and the next command arrive in ONE segment (no waiting for the reply)
             m0 = len(a.replies)
             a.send_raw(cmd.encode() + b"\r\nPWD\r\n")
@@ -195,8 +216,9 @@ def _job(args):
     parked = len(args) > 6 and args[6]
     slow = args[7] if len(args) > 7 else None
     close_returns = args[8] if len(args) > 8 else None
+    salt = args[9] if len(args) > 9 else 0  # iteration order of the dispatcher's set of finished tasks (simnet.SeqTask)
     try:
-        return simnet.run(_situation, SITUATIONS[idx], backend, k, rep, pipelined, fc, parked, slow, close_returns)
+        return simnet.run(_situation, SITUATIONS[idx], backend, k, rep, pipelined, fc, parked, slow, close_returns, task_salt=salt)
     except BaseException as e:  # noqa
         return "HARNESS-ERROR %s: %s" % (type(e).__name__, e)
 
@@ -258,6 +280,18 @@ def _run(ctx, compare=True):
             if not SITUATIONS[i][4]:
                 for k in range(len(r["calls"])):
                     jobs.append((i, be, k, None, True))
+                    if be == "memory":
+                        pass
+            if SITUATIONS[i][0] in ("retr", "list-root", "mlsd-d") and be == "memory":
+                for k in range(len(r["calls"])):
+                    jobs.append((i, be, k, None, "reset-data"))
+            if not SITUATIONS[i][4]:
+                for k in range(len(r["calls"])):
+                    if be == "memory":
+                        # the failing handler and the reader of the next line finish in the same wake-up of the
+                        # dispatcher: in whichever order it looks at them, both are dealt with
+                        for salt in (1, 5):
+                            jobs.append((i, be, k, None, True, 0, False, None, None, salt))
             # a backend whose close() returns a truthy value: a fault inside the transfer is still a fault
             if SITUATIONS[i][4] and be == "memory":
                 for k in range(len(r["calls"])):
@@ -304,6 +338,16 @@ def _run(ctx, compare=True):
         res.count("fault_in=" + call)
         if k is None or k > 0:
             res.distinct.add((sit[0], be, k, rep, fc))
+        if pipelined == "reset-data":
+            res.count("data_connection_reset_by_peer")
+            if k < len(r["calls"]) and (451 not in r["codes"] or not r["alive"] or r["follow_pwd"] != [257]):
+                res.oracle_failures.append({
+                    "input": {"situation": sit[0], "command": sit[2], "preparation": sit[1], "backend": be, "fault_at_call": k, "all_calls_of_kind_fail": None, "pipelined_with": "reset-data"},
+                    "what": "%r: the peer reset the data connection (bytes unread) while the worker was inside a slow backend call, and backend call %d (%s) then failed: replies %r, session alive: %s, PWD -> %r (want a 451 and a live session)" % (
+                        sit[2], k, r["calls"][k], r["codes"], r["alive"], r["follow_pwd"]),
+                    "signature": "C13:backend-fault-after-data-reset:%s" % sit[2].split(" ")[0].lower(),
+                })
+            continue
         if pipelined:
             res.count("pipelined")
             pc = r.get("pipelined_codes") or []
@@ -312,7 +356,7 @@ def _run(ctx, compare=True):
             # PWD may finish first - the pipelining caveat of C05 / finding F14)
             if sorted(pc) != [257, 451] or r["follow_pwd"] != [257]:
                 res.oracle_failures.append({
-                    "input": {"situation": sit[0], "command": sit[2], "preparation": sit[1], "backend": be, "fault_at_call": k, "all_calls_of_kind_fail": None, "pipelined_with": "PWD"},
+                    "input": {"situation": sit[0], "command": sit[2], "preparation": sit[1], "backend": be, "fault_at_call": k, "all_calls_of_kind_fail": None, "pipelined_with": "PWD", "task_salt": (job[9] if len(job) > 9 else 0)},
                     "what": "%r (backend call %d failing) and PWD sent in one segment were answered %r, then PWD -> %r (want one 451, one 257 and a live session)" % (sit[2], k, pc, r["follow_pwd"]),
                     "signature": "C13:pipelined-command-lost:%s" % sit[2].split(" ")[0].lower(),
                 })
@@ -421,7 +465,7 @@ def _one(inp):
     names = [s[0] for s in SITUATIONS]
     i = names.index(inp["situation"])
     fc = [n for n, _ in FAULT_CLASSES].index(inp.get("fault_class", "OSError"))
-    r = _job((i, inp["backend"], inp.get("fault_at_call"), inp.get("all_calls_of_kind_fail"), bool(inp.get("pipelined_with")), fc, bool(inp.get("parked_data_connection")), inp.get("slow_executor_job"), inp.get("backend_close_returns")))
+    r = _job((i, inp["backend"], inp.get("fault_at_call"), inp.get("all_calls_of_kind_fail"), (inp.get("pipelined_with") if inp.get("pipelined_with") == "reset-data" else bool(inp.get("pipelined_with"))), fc, bool(inp.get("parked_data_connection")), inp.get("slow_executor_job"), inp.get("backend_close_returns"), int(inp.get("task_salt", 0))))
     return SITUATIONS[i], r
 
 
